@@ -296,8 +296,10 @@ func shrink(t *testing.T, p *Prop, sc *world.Scenario, v Violation) Failure {
 	bestV := v
 	orig := sc.NumOps()
 	budget := 400
+	deadline := time.Now().Add(time.Duration(envInt("VERIF_SHRINK_S", 45)) * time.Second)
 	try := func(c *world.Scenario) bool {
-		if budget <= 0 {
+		if budget <= 0 || time.Now().After(deadline) {
+			budget = 0
 			return false
 		}
 		budget--
